@@ -26,6 +26,7 @@ from harness import driver
 from harness.driver import call_impl, cz, cnat, cbool, clist, czlist, cgrid, cres
 
 ID = 'C15'
+OWN_COQCHK = True   # this module runs coqchk itself in the thorough tier (extra_checks)
 COQ_IMPORTS = ('From CPL Require Import Model.Base Model.CTRBL Model.Loops Model.SayamaSpec gen.GenTables Corr.C15.\n'
                'Open Scope Z_scope.')
 NONTRIVIAL_RULE = ('complete: all 9^5 (C,T,R,B,L) of each of the three loops (Langton: its 8^5 plus the combinations with '
